@@ -726,22 +726,120 @@ func checkRegion(c *vkit.Collector, rng *vkit.Rng, name string, reg cellRegion, 
 	}
 }
 
+// relBudget bounds the number of loops/polygons whose cell relations go to the Coq model per run.
+var relBudget = map[string]int{}
+
+// correspondCellRelations: [T] Loop/Polygon.ContainsCell / IntersectsCell vs Model/Index.v
+// contains_cell / intersects_cell over the shape's own index; the crossing predicates and the
+// padded clipping test of boundaryApproxIntersects are tables of the implementation's values.
+func correspondCellRelations(c *vkit.Collector, rng *vkit.Rng, name string, reg cellRegion, own *s2.ShapeIndex, sh *idxShape) {
+	if relBudget[name] <= 0 || len(sh.edges) > 90 {
+		return
+	}
+	cells := own.VerifCells()
+	if len(cells) > 60 {
+		return
+	}
+	relBudget[name]--
+	toks := map[s2.Point]int{}
+	next := 2
+	tk := func(q s2.Point) int {
+		if t, ok := toks[q]; ok {
+			return t
+		}
+		toks[q] = next
+		next++
+		return next - 1
+	}
+	es := make([]string, len(sh.edges))
+	for j, e := range sh.edges {
+		es[j] = fmt.Sprintf("(%d, %d)", tk(e.V0), tk(e.V1))
+	}
+	var terms []string
+	it := own.Iterator()
+	for n := 0; n < 14; n++ {
+		var t s2.CellID
+		base := cells[rng.Intn(len(cells))].ID
+		switch n % 5 {
+		case 0:
+			t = base
+		case 1:
+			if base.Level() < 30 {
+				t = base.Children()[rng.Intn(4)]
+			} else {
+				t = base
+			}
+		case 2:
+			if base.Level() > 0 {
+				t = base.Parent(rng.Intn(base.Level() + 1))
+			} else {
+				t = base
+			}
+		case 3:
+			t = s2.CellFromPoint(sh.edges[rng.Intn(len(sh.edges))].V0).ID().Parent(base.Level())
+			if base.Level() < 28 {
+				t = s2.CellFromPoint(sh.edges[rng.Intn(len(sh.edges))].V0).ID().Parent(base.Level() + 2)
+			}
+		default:
+			t = s2.CellFromPoint(randPoint(rng)).ID().Parent(rng.Intn(12))
+		}
+		target := s2.CellFromCellID(t)
+		var st, vt, at []string
+		if it.LocateCellID(t) == s2.Indexed {
+			pos := posOf(cells, it.CellID())
+			center := it.CellID().Point()
+			seen := map[[2]int]bool{}
+			for _, cl := range cells[pos].Shapes {
+				for _, e := range cl.Edges {
+					ed := sh.edges[e]
+					k := [2]int{tk(ed.V0), tk(ed.V1)}
+					if seen[k] {
+						continue
+					}
+					seen[k] = true
+					sign := s2.CrossingSign(center, target.Center(), ed.V0, ed.V1)
+					st = append(st, fmt.Sprintf("((%d, %d), %s)", k[0], k[1], signName(sign)))
+					vc := false
+					if sign == s2.MaybeCross {
+						vc = s2.VertexCrossing(center, target.Center(), ed.V0, ed.V1)
+					}
+					vt = append(vt, fmt.Sprintf("((%d, %d), %s)", k[0], k[1], vkit.B(vc)))
+					at = append(at, fmt.Sprintf("((%d, %d), %s)", k[0], k[1], vkit.B(s2.VerifC06ApproxMeets(ed.V0, ed.V1, target))))
+				}
+			}
+		}
+		gotC, gotI := reg.ContainsCell(target), reg.IntersectsCell(target)
+		terms = append(terms, fmt.Sprintf("(let st := [%s] in let vt := [%s] in let am := [%s] in let cc := (fun id : Z => if id =? %d then 0 else 1) in (option_beq Bool.eqb (contains_cell Z (tab_sign st) (tab_vc vt) cc (tab_meets am) shp idx %d) (Some %s)) && (option_beq Bool.eqb (intersects_cell Z (tab_sign st) (tab_vc vt) cc (tab_meets am) shp idx %d) (Some %s)))",
+			joinSemi(st), joinSemi(vt), joinSemi(at), uint64(t), uint64(t), vkit.B(gotC), uint64(t), vkit.B(gotI)))
+	}
+	c.Eval("T:cellrel:"+name+fmt.Sprint(len(sh.edges), len(cells)), true)
+	c.Check(fmt.Sprintf("%s ContainsCell/IntersectsCell model (%d edges, %d index cells)", name, len(sh.edges), len(cells)),
+		fmt.Sprintf("(let idx := %s in let shp := mkQShape 2 [%s] in forallb (fun b : bool => b) [%s])%%Z", coqIndex(cells), joinSemi(es), joinSemi(terms)))
+}
+
 func checkRegions(c *vkit.Collector, rng *vkit.Rng, budget int) {
 	for it := 0; it < 16*budget; it++ {
 		n := []int{33, 40, 64, 100, 300, 1000}[rng.Intn(6)]
+		if it < 4 {
+			n = 33 + rng.Intn(8)
+		}
 		center, radius := pickCenter(rng), pickRadius(rng)
 		desc := map[string]interface{}{"center": p3(center), "radius": float64(radius), "n": n}
 		if it%2 == 0 {
 			l := s2.RegularLoop(center, radius, n)
 			c.Class("region:Loop")
-			checkRegion(c, rng, "Loop", l, newIdxShape(l, "Loop", true, desc), 12, desc)
+			lsh := newIdxShape(l, "Loop", true, desc)
+			checkRegion(c, rng, "Loop", l, lsh, 12, desc)
+			correspondCellRelations(c, rng, "Loop", l, s2.VerifC06LoopIndex(l), lsh)
 		} else {
 			// shell with a hole; the hole has > 32 vertices too
 			outer := s2.RegularLoop(center, radius, n)
 			inner := s2.RegularLoop(center, radius/2, 33+rng.Intn(10))
 			p := s2.PolygonFromLoops([]*s2.Loop{outer, inner})
 			c.Class("region:Polygon")
-			checkRegion(c, rng, "Polygon", p, newIdxShape(p, "Polygon", true, desc), 12, desc)
+			psh := newIdxShape(p, "Polygon", true, desc)
+			checkRegion(c, rng, "Polygon", p, psh, 12, desc)
+			correspondCellRelations(c, rng, "Polygon", p, s2.VerifC06PolygonIndex(p), psh)
 		}
 	}
 }
@@ -791,7 +889,40 @@ func posOf(cells []s2.VerifCell, id s2.CellID) int {
 // value and its shapes is the expensive part of the correspondence).
 var tBudget int
 
+// okBudget bounds the number of indexes whose structural well-formedness Coq decides per run.
+var okBudget int
+
+// correspondIndexOk: [T] Coq decides the structural part of index_ok (Model/Index.v index_okb, with
+// the reflection lemma Proofs/C06_IndexOk.v index_okb_sound) on the dumped index value.
+func correspondIndexOk(c *vkit.Collector, col *collection, cells []s2.VerifCell) {
+	ids := 0
+	for _, cell := range cells {
+		for _, cl := range cell.Shapes {
+			ids += len(cl.Edges) + 3
+		}
+	}
+	if okBudget <= 0 || len(cells) > 80 || ids > 700 {
+		return
+	}
+	okBudget--
+	ne := make([]int, len(col.shapes))
+	for i, sh := range col.shapes {
+		ne[i] = len(sh.edges)
+	}
+	c.Eval("T:index_okb:"+col.kind+fmt.Sprint(len(cells), ids), len(cells) > 0)
+	c.Check(fmt.Sprintf("index_okb %s (%d cells)", col.kind, len(cells)), fmt.Sprintf("(index_okb %s %s)%%Z", zlistPlain(ne), coqIndex(cells)))
+}
+
+func zlistPlain(xs []int) string {
+	ss := make([]string, len(xs))
+	for i, x := range xs {
+		ss[i] = fmt.Sprint(x)
+	}
+	return "[" + joinSemi(ss) + "]"
+}
+
 func correspondIndex(c *vkit.Collector, rng *vkit.Rng, col *collection, cells []s2.VerifCell, n int) {
+	correspondIndexOk(c, col, cells)
 	if len(cells) > 24 || col.numEdges() > 48 || tBudget <= 0 {
 		return
 	}
@@ -965,6 +1096,8 @@ func runIndex(c *vkit.Collector, rng *vkit.Rng, budget int) {
 	kinds := []int{0, 1, 2, 0, 3, 2, 1, 4, 0, 2, 1, 3, 0, 2, 1, 0}
 	nCollections := 80 * budget
 	tBudget = 6 * budget
+	okBudget = 12 * budget
+	relBudget["Loop"], relBudget["Polygon"] = 2*budget, 2*budget
 	maxEdges, maxCells := 0, 0
 	for it := 0; it < nCollections; it++ {
 		kind := kinds[it%len(kinds)]
